@@ -29,6 +29,7 @@ def main():
     ap.add_argument('--checks', default=None)
     ap.add_argument('--only', default=None)
     ap.add_argument('--skip-suite', action='store_true')
+    ap.add_argument('--round', type=int, default=1, help='2 reads <worktree>/out2 and stores seeded/<PID>-r2-<i>')
     a = ap.parse_args()
     pid = a.pid.upper()
     wt = '/tmp/mut-' + pid.lower()
@@ -39,14 +40,16 @@ def main():
     sh(['git', 'checkout', '-q', '--detach', head], cwd=wt)
     sh(['git', 'checkout', '--', '.'], cwd=wt)
     sh([PY, 'setup.py', 'build_ext', '--inplace', '-j8'], cwd=wt)
-    ids = sorted(d for d in os.listdir(os.path.join(wt, 'out')) if d.isdigit())
+    OUT = 'out' if a.round == 1 else 'out%d' % a.round
+    TAG = '' if a.round == 1 else 'r%d-' % a.round
+    ids = sorted(d for d in os.listdir(os.path.join(wt, OUT)) if d.isdigit())
     if a.only:
         ids = [i for i in ids if i in a.only.split(',')]
     results = {}
     for i in ids:
-        d = os.path.join(wt, 'out', i)
+        d = os.path.join(wt, OUT, i)
         patch = os.path.join(d, 'patch.diff')
-        r = {'id': '%s-%s' % (pid, i)}
+        r = {'id': '%s-%s%s' % (pid, TAG, i)}
         rc, out = sh(['git', 'apply', '--check', patch], cwd=wt)
         r['applies_cleanly'] = rc == 0
         if rc != 0:
@@ -85,18 +88,18 @@ def main():
         print(json.dumps(r, indent=1)); sys.stdout.flush()
     sh([PY, 'setup.py', 'build_ext', '--inplace', '-j8'], cwd=wt)
     for i in ids:
-        d = os.path.join(wt, 'out', i)
+        d = os.path.join(wt, OUT, i)
         rc, out = sh([PY, os.path.join(d, 'demo.py')], cwd=wt, env=env)
         results[i]['demo_exit_clean'] = rc
     for i in ids:
         r = results[i]
-        d = os.path.join(wt, 'out', i)
+        d = os.path.join(wt, OUT, i)
         ok = r.get('applies_cleanly') and r.get('builds') and r.get('suite_passes', a.skip_suite) \
             and r.get('demo_exit_with_patch', 0) != 0 and r.get('demo_exit_clean') == 0
         r['kept'] = bool(ok)
         r['caught_by'] = [c for c, v in r.get('checks', {}).items() if v['exit'] == 1]
         if ok:
-            dst = os.path.join(VERIF, 'seeded', '%s-%s' % (pid, i))
+            dst = os.path.join(VERIF, 'seeded', '%s-%s%s' % (pid, TAG, i))
             os.makedirs(dst, exist_ok=True)
             for fn in os.listdir(d):
                 if fn in ('patch.diff', 'demo.py') or fn.startswith('replay_'):
